@@ -808,6 +808,39 @@ Proof.
     rewrite Xfs. unfold with_segs. cbn [f_segs]. apply sorted_del. exact Hsort.
 Qed.
 
+(* ---- a clean restart inside the history: Close persists the metadata (two more crash points), NewDiskQueue reads it back ---- *)
+Lemma cinv_reopen c d E k :
+  cinv c d E k -> exists d', dq_open c (fs (dq_close d)) (trace (dq_close d)) = Some d' /\ cinv c d' E k.
+Proof.
+  intros [pre [w [off [I [L [Hsort [Hsm Htr]]]]]]].
+  pose proof I as [B _].
+  pose proof (lay_img c d E k pre w off B L) as Id.
+  destruct (lay_decomp c d E k pre w off L) as [D0 [HE Hk]].
+  unfold dq_close, persist_meta, mutate.
+  cbn [readPos writePos readFileNum writeFileNum depth fs trace f_tmp f_segs f_bad f_meta].
+  rewrite write_at_zero.
+  unfold dq_open. cbn [f_meta].
+  rewrite meta_roundtrip.
+  unfold LOOP_FUEL.
+  match goal with |- context [loop_top c _ ?x] => set (r := x) end.
+  assert (Br : sbody c (readFileNum r) (readPos r) (writeFileNum r) (writePos r) (depth r) (f_segs (fs r)) pre w off) by exact B.
+  destruct (loop_fresh c r pre w off 63 Br eq_refl (fun _ => eq_refl) Logic.I) as [d' [E1 [I' SF]]].
+  exists d'. split; [exact E1|].
+  assert (Lr : lay c r E k pre w off).
+  { exists D0, w, [], off, (depth d). rewrite app_nil_r. split; [exact HE|]. split; [exact Hk|]. split; [reflexivity|]. split; [lia|].
+    split; [intros ->; exact (proj1 (sb_off _ _ _ _ _ _ _ _ _ _ B))|].
+    left. eexists. unfold r. cbn [fs f_meta readFileNum writeFileNum].
+    rewrite <- (sb_rpos _ _ _ _ _ _ _ _ _ _ B), <- (sb_wpos _ _ _ _ _ _ _ _ _ _ B). reflexivity. }
+  pose proof (lay_img c r E k pre w off Br Lr) as Ir.
+  assert (Tr : forall l f, In (l, f) (trace r) -> img c E k (writeFileNum r) f).
+  { intros l f Hin. unfold r in Hin. cbn [trace] in Hin. destruct Hin as [Hin|[Hin|Hin]].
+    - inversion Hin; subst l f. exact Ir.
+    - inversion Hin; subst l f. apply (img_ext c E k _ (fs d)); [reflexivity | reflexivity | exact Id].
+    - exact (Htr l f Hin). }
+  destruct (presync_step c r E k pre w off (writeFileNum r) Br eq_refl (or_introl Lr) Ir Tr) as [L2 T2].
+  apply (cinv_finish c d' r E k pre w off SF I' L2 Hsort Hsm T2).
+Qed.
+
 (* ---- runs of puts, gets and sync ticks ---- *)
 Fixpoint nr_small (ops : list dop) : bool :=
   match ops with
@@ -817,13 +850,19 @@ Fixpoint nr_small (ops : list dop) : bool :=
   | _ :: r => nr_small r
   end.
 
+Lemma nr_small_smallops ops : nr_small ops = true -> smallops ops = true.
+Proof.
+  induction ops as [|o ops IH]; [reflexivity|]. destruct o; cbn [nr_small smallops]; try exact IH; try discriminate.
+  intros H. apply andb_true_iff in H as [H1 H2]. rewrite H1, (IH H2). reflexivity.
+Qed.
+
 Theorem run_cinv c ops : forall d E k,
-  cinv c d E k -> nr_small ops = true ->
+  cinv c d E k -> smallops ops = true ->
   exists d' k', snd (dq_run c (Some d) ops) = Some d' /\ cinv c d' (E ++ puts ops) k'.
 Proof.
   induction ops as [|o ops IH]; intros d E k I F.
   - exists d, k. cbn. rewrite app_nil_r. auto.
-  - destruct o as [m| | |]; cbn [nr_small] in F; try discriminate.
+  - destruct o as [m| | |]; cbn [smallops] in F.
     + apply andb_true_iff in F as [F1 F2].
       destruct (cinv_put c d E k m I ltac:(unfold small; lia)) as [d1 [E1 I1]].
       destruct (IH d1 (E ++ [m]) k I1 F2) as [d' [k' [R I']]].
@@ -843,6 +882,10 @@ Proof.
         destruct (dq_run c (Some d1) ops) as [outs dl]. cbn [snd] in *. auto.
     + cbn [dq_run dq_step puts].
       destruct (cinv_tick c d E k I) as [d1 [E1 I1]]. rewrite E1.
+      destruct (IH d1 E k I1 F) as [d' [k' [R I']]]. exists d', k'.
+      destruct (dq_run c (Some d1) ops) as [outs dl]. cbn [snd] in *. auto.
+    + cbn [dq_run dq_step puts]. cbv zeta.
+      destruct (cinv_reopen c d E k I) as [d1 [E1 I1]]. rewrite E1.
       destruct (IH d1 E k I1 F) as [d' [k' [R I']]]. exists d', k'.
       destruct (dq_run c (Some d1) ops) as [outs dl]. cbn [snd] in *. auto.
 Qed.
@@ -872,13 +915,13 @@ Proof.
   subst E. rewrite app_length. lia.
 Qed.
 
-(* The theorem.  For every history of puts, gets and sync ticks — any maxBytesPerFile, any syncEvery, messages below 2^31
+(* The theorem.  For every history of puts, gets, sync ticks and clean restarts — any maxBytesPerFile, any syncEvery, messages below 2^31
    bytes — every file system state the queue passed through (after each segment write, fsync, metadata temp write, metadata
-   rename and segment removal) is recovered by NewDiskQueue without panic into a queue whose complete drain is a contiguous
+   rename, also those of Close, and segment removal) is recovered by NewDiskQueue without panic into a queue whose complete drain is a contiguous
    run E[sr .. sw) of the enqueued messages, intact and in order, where sr does not exceed the number of messages handed
    to the consumer. *)
-Theorem crash_recovery_segments c ops limit :
-  nr_small ops = true -> (length (puts ops) <= limit)%nat ->
+Theorem crash_recovery_all c ops limit :
+  smallops ops = true -> (length (puts ops) <= limit)%nat ->
   exists dfin kfin,
     snd (dq_run c (dq_open c fs_empty []) ops) = Some dfin /\ (kfin <= length (puts ops))%nat /\
     forall l f, In (l, f) (trace dfin) ->
@@ -895,3 +938,14 @@ Proof.
   destruct (img_recover c _ kfin _ f (Htr l f Hin)) as [d [sr [sw [Eo [H1 [H2 [H3 Hd]]]]]]].
   exists sr, sw, d. repeat split; try assumption. apply Hd. lia.
 Qed.
+
+Theorem crash_recovery_segments c ops limit :
+  nr_small ops = true -> (length (puts ops) <= limit)%nat ->
+  exists dfin kfin,
+    snd (dq_run c (dq_open c fs_empty []) ops) = Some dfin /\ (kfin <= length (puts ops))%nat /\
+    forall l f, In (l, f) (trace dfin) ->
+      exists sr sw d,
+        (sr <= sw)%nat /\ (sw <= length (puts ops))%nat /\ (sr <= kfin)%nat /\
+        dq_open c f [] = Some d /\
+        dq_drain c limit d = firstn (sw - sr) (skipn sr (puts ops)).
+Proof. intros F. apply crash_recovery_all. apply nr_small_smallops. exact F. Qed.
